@@ -75,9 +75,11 @@ def fresh_schema(project):
     return R.fresh(project)['schema']
 
 
-def evolve_db(alias, custom=None):
+def evolve_db(alias, custom=None, only_if_required=False):
     """Evolve one database: evolutions discovered the normal way, or (when
-    `custom` is a list of mutation steps) handed to EvolveAppTask in memory."""
+    `custom` is a list of mutation steps) handed to EvolveAppTask in memory.
+    With only_if_required the run follows the evolve command: nothing is
+    executed unless get_evolution_required() says so (res.required)."""
     B.reset_globals()
     tracer = O.Tracer(alias)
     res = D.RunResult()
@@ -92,7 +94,11 @@ def evolve_db(alias, custom=None):
                 ev.queue_task(EvolveAppTask(ev, get_app('va'), evolutions=[{
                     'label': 'e1',
                     'mutations': [ML.to_real(mj) for _l, mj in custom]}]))
-            ev.evolve()
+            res.required = True
+            if only_if_required:
+                res.required = bool(ev.get_evolution_required())
+            if res.required:
+                ev.evolve()
         res.ok = True
     except Exception as e:
         res.exc, res.exc_type = e, type(e).__name__
@@ -110,7 +116,12 @@ def stored_models(alias):
     return sorted(m.model_name for m in a.model_sigs)
 
 
-def run_case(assign, steps, order, stats, add, custom=False):
+def recorded_labels(alias):
+    bk = O.bookkeeping_dump(alias)
+    return sorted(l for (a, l, _v) in (bk['evolutions'] or []) if a == 'va')
+
+
+def run_case(assign, steps, order, stats, add, custom=False, fallback=None):
     stats['cases'] += 1
     project = base_project()
     final = project
@@ -118,16 +129,19 @@ def run_case(assign, steps, order, stats, add, custom=False):
         final = ML.apply(final, label, mj)
     hist = EB.History(project, [('va', 'e1', [mj for _l, mj in steps])])
     replay = {'assign': assign, 'steps': steps, 'order': order,
-              'custom': custom}
+              'custom': custom, 'fallback': fallback}
     shape = '%s' % c03.abstract_path(steps)
     split = 'split' if len(set(assign.values())) > 1 else 'same-db'
     if custom:
         split += '|in-memory-evolutions'
+    if fallback:
+        split += '|router-sends-unmanaged-models-to-%s' % fallback
     # reference schemas first (R.fresh re-installs models)
     want0 = {al: fresh_schema(routed_spec(project, assign, al))
              for al in DBS}
     want1 = {al: fresh_schema(routed_spec(final, assign, al)) for al in DBS}
     set_route(assign)
+    B.ROUTE_FALLBACK[0] = fallback
     try:
         hist.install(0)
         for al in DBS:
@@ -188,7 +202,47 @@ def run_case(assign, steps, order, stats, add, custom=False):
                 add('C16|stored-signature-models-not-the-routed-ones|evolve'
                     '|%s' % split, replay, {'db': al, 'got': sm,
                                             'want': wm})
+            if not custom and recorded_labels(al) != ['e1']:
+                add('C16|evolution-not-recorded-once-in-the-evolved-'
+                    'database|%s' % split, replay,
+                    {'db': al, 'recorded': recorded_labels(al)})
+        if not custom:
+            # evolving each database once more must change nothing
+            for al in order:
+                before = {x: B.snapshot(x) for x in DBS}
+                rec_before = recorded_labels(al)
+                res = evolve_db(al, only_if_required=True)
+                stats['runs'] += 1
+                here = routed_spec(final, assign, al)
+                n_here = len(list(S.iter_models(here)))
+                ctx = 'no-model-of-the-app-on-this-database' \
+                    if n_here == 0 else 'some-models-here'
+                if not res.ok:
+                    add('C16|second-evolve-fails|%s|%s|%s' % (
+                        res.exc_type, ctx, split), replay,
+                        {'db': al, 'error': str(res.exc)[:200]})
+                    continue
+                eff = [q for q, _p in res.statements
+                       if not q.upper().startswith('PRAGMA')]
+                if recorded_labels(al) != rec_before:
+                    add('C16|second-evolve-records-evolutions-again|%s|%s'
+                        % (ctx, split), replay,
+                        {'db': al, 'before': rec_before,
+                         'after': recorded_labels(al)})
+                elif eff or res.required:
+                    add('C16|second-evolve-not-a-noop|%s|%s' % (
+                        ctx, split), replay, {'db': al, 'sql': eff[:3]})
+                # the same through the API, which does not ask whether an
+                # evolution is required: nothing may be recorded again
+                res = evolve_db(al)
+                stats['runs'] += 1
+                if res.ok and recorded_labels(al) != rec_before:
+                    add('C16|forced-re-evolve-records-evolutions-again|%s|%s'
+                        % (ctx, split), replay,
+                        {'db': al, 'before': rec_before,
+                         'after': recorded_labels(al)})
     finally:
+        B.ROUTE_FALLBACK[0] = None
         B.ROUTE.clear()
         for al in DBS:
             B.fresh_db(al)
@@ -351,6 +405,8 @@ def work(task):
             run_case(assign, steps, order, stats, add)
         run_case(assign, steps, ['default', 'other'], stats, add,
                  custom=True)
+        run_case(assign, steps, ['other', 'default'], stats, add,
+                 fallback='default')
     stats['samples'].append({'assign': assign, 'steps': progs[0]})
     return stats, viol
 
@@ -414,7 +470,8 @@ def replay(path):
         flush_scenario(r['assign'], stats, add)
     else:
         run_case(r['assign'], [tuple(s) for s in r['steps']], r['order'],
-                 stats, add, custom=r.get('custom', False))
+                 stats, add, custom=r.get('custom', False),
+                 fallback=r.get('fallback'))
     for fp, d in found.items():
         print('  %s %s' % (fp, str(d)[:400]))
     if doc['fingerprint'] in found:
